@@ -16,7 +16,7 @@ def run(ctx):
     paths = universes(ctx, ["c1d2", "k3d2", "k2d3"] if ctx.quick else ["c1d2", "k3d2", "k2d3", "k4d2", "k3d3"])
     ev = ctx.work / "events.ndjson"
     ctx.dsv("C09", "drive", "--out", ev, "--universe", ",".join(paths), "--maxgen", 4 if ctx.quick else 6,
-            "--big", 3 if ctx.quick else 20, "--reach3d", 100 if ctx.quick else 1500, "--degenerate", 40 if ctx.quick else 100000, "--deep3d", 150 if ctx.quick else 1500, timeout=7200)
+            "--big", 3 if ctx.quick else 20, "--reach3d", 100 if ctx.quick else 1500, "--degenerate", 40 if ctx.quick else 100000, "--deep3d", 450 if ctx.quick else 1500, timeout=7200)
     for ln in open(ev):
         e = json.loads(ln)
         if e.get("ngens", 0) >= 1:
